@@ -24,6 +24,7 @@ func NewTransientLockMap() *TransientLockMap {
 // Lock acquires the lock for the specified key and returns true, unless the context finishes before the lock could be
 // acquired, in which case false is returned.
 func (l *TransientLockMap) Lock(ctx context.Context, key string) bool {
+	verifYield("L1", key)
 	lock := func() *countedLock {
 		// If there is high lock contention, we could use a readonly lock to check if the lock is already in the map (and
 		// thus no map writes are necessary), but this is complicated enough as it is so we skip that optimization for now.
@@ -47,6 +48,7 @@ func (l *TransientLockMap) Lock(ctx context.Context, key string) bool {
 	}()
 
 	if !lock.Lock(ctx) {
+		verifYield("L3", key)
 		l.returnLockObj(key, lock)
 		return false
 	}
@@ -55,6 +57,7 @@ func (l *TransientLockMap) Lock(ctx context.Context, key string) bool {
 
 // Unlock unlocks the lock for the specified key. Panics if the lock is not currently held.
 func (l *TransientLockMap) Unlock(key string) {
+	verifYield("U1", key)
 	lock := func() *countedLock {
 		l.mu.Lock()
 		defer l.mu.Unlock()
@@ -66,7 +69,9 @@ func (l *TransientLockMap) Unlock(key string) {
 		return lock
 	}()
 
+	verifYield("U2", key)
 	lock.Unlock()
+	verifYield("U3", key)
 	l.returnLockObj(key, lock)
 }
 
